@@ -34,20 +34,30 @@ Definition out_eqb (a b : out) : bool :=
   | _, _ => false
   end.
 Definition tok_eqb (a b : token) : bool :=
-  Nat.eqb (t_id a) (t_id b) && tcls_eqb (t_cls a) (t_cls b) && opt_eqb Nat.eqb (t_based a) (t_based b)
+  Nat.eqb (t_grant a) (t_grant b) && tcls_eqb (t_cls a) (t_cls b) && opt_eqb Nat.eqb (t_based a) (t_based b)
   && (t_used a =? t_used b) && opt_eqb Z.eqb (t_max a) (t_max b)
   && opt_eqb (list_eqb tcls_eqb) (t_mints a) (t_mints b) && Bool.eqb (t_revoked a) (t_revoked b)
   && (t_exp a =? t_exp b) && strs_eqb (t_scope a) (t_scope b).
-(* the harness does not observe the authorization request scope, redirect_uri and valid_until
-   separately: it passes them as recorded by the real grant *)
 Definition grant_eqb (a b : grant) : bool :=
   str_eqb (g_user a) (g_user b) && str_eqb (g_client a) (g_client b) && Bool.eqb (g_revoked a) (g_revoked b)
   && (g_exp a =? g_exp b) && strs_eqb (g_scope a) (g_scope b) && strs_eqb (g_areq_scope a) (g_areq_scope b)
-  && str_eqb (g_redirect a) (g_redirect b) && (g_valid_until a =? g_valid_until b)
-  && list_eqb tok_eqb (g_tokens a) (g_tokens b).
+  && str_eqb (g_redirect a) (g_redirect b) && (g_valid_until a =? g_valid_until b).
+
+(* what the harness reads off the real provider: the grants (in creation order) and, per grant, its
+   issued_token list with the harness-assigned identifiers (minting order) *)
+Definition snap := (list grant * list (list (nat * token)))%type.
+Fixpoint ids_from (i : nat) (ts : list token) : list (nat * token) :=
+  match ts with [] => [] | t :: r => (i, t) :: ids_from (S i) r end.
+Definition issued (s : st) (gi : nat) : list (nat * token) :=
+  List.filter (fun it => Nat.eqb (t_grant (snd it)) gi) (ids_from 0 (toks s)).
+Definition snapshot (s : st) : snap :=
+  (grants s, List.map (issued s) (seq 0 (length (grants s)))).
+Definition itok_eqb (a b : nat * token) : bool := Nat.eqb (fst a) (fst b) && tok_eqb (snd a) (snd b).
+Definition snap_eqb (a b : snap) : bool :=
+  list_eqb grant_eqb (fst a) (fst b) && list_eqb (list_eqb itok_eqb) (snd a) (snd b).
 
 (* a case: configuration, the operations with the implementation's outcomes, the implementation's final state *)
-Definition hist := (bool * bool * list (op * out) * list grant)%type.
+Definition hist := (bool * bool * list (op * out) * snap)%type.
 Fixpoint outs_ok (c : cfg) (s : st) (tr : list (op * out)) : bool * st :=
   match tr with
   | [] => (true, s)
@@ -57,7 +67,7 @@ Fixpoint outs_ok (c : cfg) (s : st) (tr : list (op * out)) : bool * st :=
 Definition chk_hist (h : hist) : bool :=
   let '(oidc, roi, tr, fin) := h in
   let '(ok, s) := outs_ok (mk_cfg oidc roi) init tr in
-  ok && list_eqb grant_eqb (grants s) fin.
+  ok && snap_eqb (snapshot s) fin.
 
 (* diagnostics: index of the first differing outcome and the model's outcome there, or the model's final state *)
 Fixpoint first_diff (c : cfg) (s : st) (i : nat) (tr : list (op * out)) : option (nat * out) + st :=
@@ -70,5 +80,5 @@ Definition diag_hist (h : hist) :=
   let '(oidc, roi, tr, fin) := h in
   match first_diff (mk_cfg oidc roi) init 0 tr with
   | inl d => inl d
-  | inr s => inr (grants s)
+  | inr s => inr (snapshot s)
   end.
